@@ -32,6 +32,7 @@ import copy as _pycopy
 
 import numpy as np
 import scipy.sparse as sp
+from numpy.lib.array_utils import byte_bounds
 
 from mc import letters as L
 from mc.core import Check, Failure
@@ -219,7 +220,25 @@ def norm_path(path):
     return "".join(out)
 
 
-def independent(a, b, where, clause_prefix, fails, note=None, root_a=None, max_fail=3):
+def gobs(g):
+    """digest of a landmark group (the shape classes of the landmark machine): class, points, dense
+    adjacency, labels in order with their masks - what mc.observe.observe reports for them, flattened."""
+    d = {"class": type(g).__name__, "points": g.points.copy()}
+    am = getattr(g, "adjacency_matrix", None)
+    if am is not None:
+        d["adj"] = am.toarray()
+    if hasattr(g, "_labels_to_masks"):
+        d["labels"] = list(g.labels)
+        d["masks"] = np.array([g._labels_to_masks[l] for l in g.labels])
+    return d
+
+
+def gkey(d):
+    p = np.round(d["points"], 9) + 0.0
+    return (d["class"], p.shape, p.tobytes(), d["adj"].tobytes() if "adj" in d else None, tuple(d.get("labels", ())), d["masks"].tobytes() if "masks" in d else None)
+
+
+def independent(a, b, where, clause_prefix, fails, note=None, root_a=None, max_fail=3, observe=gobs):
     """Write into every array reachable from `a` (one element, restored afterwards) and require the
     observation of `b` to stay exactly the same."""
     before = observe(b)
@@ -601,17 +620,36 @@ POOL_DIMS = (2, 2, 3)
 SHIFT = (1.0, 2.0)
 
 
+_PAYLOAD = {}
+
+
+def lm_payload(seed):
+    """seeded payload of the landmark machine, drawn once per process (fresh objects are built from copies)."""
+    if seed not in _PAYLOAD:
+        from menpo.shape import LabelledPointUndirectedGraph
+
+        v1 = LabelledPointUndirectedGraph.init_from_indices_mapping(
+            L.generic_points(4, 2, seed, "c06-v1"),
+            np.array([[0, 1], [1, 2], [2, 3]]),
+            collections.OrderedDict([("zeta", [0, 1]), ("alpha", [1, 2, 3])]),
+        )
+        _PAYLOAD[seed] = {
+            "P": L.generic_points(5, 2, seed, "c06-P"),
+            "I": L.rs(seed, "c06-I").rand(1, 4, 5),
+            "v0": L.generic_points(3, 2, seed, "c06-v0"),
+            "v1": (v1.points.copy(), v1.adjacency_matrix.copy(), [(l, v1._labels_to_masks[l].copy()) for l in v1.labels]),
+            "v2": L.generic_points(3, 3, seed, "c06-v2"),
+        }
+    return _PAYLOAD[seed]
+
+
 def build_pool(seed):
     from menpo.shape import LabelledPointUndirectedGraph, PointCloud
 
-    v0 = PointCloud(L.generic_points(3, 2, seed, "c06-v0"))
-    v1 = LabelledPointUndirectedGraph.init_from_indices_mapping(
-        L.generic_points(4, 2, seed, "c06-v1"),
-        np.array([[0, 1], [1, 2], [2, 3]]),
-        collections.OrderedDict([("zeta", [0, 1]), ("alpha", [1, 2, 3])]),
-    )
-    v2 = PointCloud(L.generic_points(3, 3, seed, "c06-v2"))
-    return [v0, v1, v2]
+    pl = lm_payload(seed)
+    pts, adj, masks = pl["v1"]
+    v1 = LabelledPointUndirectedGraph(pts.copy(), adj.copy(), collections.OrderedDict((l, m.copy()) for l, m in masks), copy=False, skip_checks=True)
+    return [PointCloud(pl["v0"].copy()), v1, PointCloud(pl["v2"].copy())]
 
 
 class LMModel(object):
@@ -644,7 +682,7 @@ class C06(Check):
         return 3 if self.tier == "quick" else 5
 
     def _lm_shards(self):
-        return 8 if self.tier == "quick" else 16
+        return 8
 
     def roots(self):
         n = self._lm_shards()
@@ -798,15 +836,12 @@ class C06(Check):
 
         variant = root[1]
         st = {"kind": "lm", "root": root, "shard": (int(root[2]), int(root[3]))}
-        st["own"] = {
-            "P": PointCloud(L.generic_points(5, 2, self.seed, "c06-P")),
-            "I": Image(L.rs(self.seed, "c06-I").rand(1, 4, 5)),
-            "X": None,
-        }
+        pl = lm_payload(self.seed)
+        st["own"] = {"P": PointCloud(pl["P"].copy()), "I": Image(pl["I"].copy()), "X": None}
         st["M"] = None
         st["pool"] = build_pool(self.seed)
         m = LMModel()
-        m.pool = [observe(v) for v in st["pool"]]
+        m.pool = [gobs(v) for v in st["pool"]]
         st["own0"] = {"P": st["own"]["P"].points.copy(), "I": st["own"]["I"].pixels.copy()}
         st["model"] = m
         if variant == "pre":
@@ -827,8 +862,8 @@ class C06(Check):
         key = []
         for mid in MGRS:
             od = m.mgr[mid]
-            key.append(None if od is None else tuple((k, obs_key(g)) for k, g in od.items()))
-        key.append(tuple(obs_key(p) for p in m.pool))
+            key.append(None if od is None else tuple((k, gkey(g)) for k, g in od.items()))
+        key.append(tuple(gkey(p) for p in m.pool))
         key.append(tuple(m.assigned))
         key.append(m.xclass)
         key.append(self._aliasing(st))
@@ -845,18 +880,41 @@ class C06(Check):
                 holders.append(((mid, name), mg[name].points))
         for i, v in enumerate(st["pool"]):
             holders.append((("pool", i), v.points))
+        spans = sorted((byte_bounds(a) + (i,) for i, (_, a) in enumerate(holders)), key=lambda t: t[:2])
         pairs = []
-        for i in range(len(holders)):
-            for j in range(i + 1, len(holders)):
-                if holders[i][1] is holders[j][1] or np.shares_memory(holders[i][1], holders[j][1]):
+        for x in range(len(spans)):
+            for y in range(x + 1, len(spans)):
+                if spans[y][0] >= spans[x][1]:
+                    break  # sorted by start: nothing later can overlap x
+                i, j = sorted((spans[x][2], spans[y][2]))
+                if np.shares_memory(holders[i][1], holders[j][1]):
                     pairs.append((holders[i][0], holders[j][0]))
-        return tuple(pairs)
+        return tuple(sorted(pairs))
 
     # ---------------------------------------------------------------- alphabet
+    NARROW = {
+        "set": (("P", "a", 0), ("P", "b", 1), ("P", "a", 2), ("I", "b", 0), ("M", "a", 0)),
+        "del": (("P", "a"), ("I", "a"), ("M", "a")),
+        "mcopy": ("P", "I"),
+        "assign": (("I", "P"), ("P", "M")),
+        "ocopy": ("P",),
+    }
+
+    def _lm_levels(self, st):
+        """(number of levels explored from this root, first level that uses the narrow alphabet)."""
+        if self.tier == "quick":
+            return 3, 99
+        # the 'pre' root starts three assignments deep: one level less than the empty root
+        return (4 if st["root"][1] == "pre" else 5), 3
+
     def _lm_ops(self, st, level):
         m = st["model"]
+        n_levels, narrow_from = self._lm_levels(st)
+        if level >= n_levels:
+            return []
         live = [mid for mid in MGRS if m.mgr[mid] is not None]
-        reduced = level >= 3  # thorough only: the two deepest levels use the narrow alphabet
+        narrow = level >= narrow_from
+        nar = self.NARROW
         out = []
         for mid in live:
             out.append(("iter", mid))
@@ -864,17 +922,14 @@ class C06(Check):
             for n in NAMES:
                 out.append(("get", mid, n))
         for mid in live:
-            if reduced and mid in ("X",):
-                continue
             for n in NAMES:
                 for v in (0, 1, 2):
-                    if reduced and (n, v) not in (("a", 0), ("b", 1), ("a", 2)):
-                        continue
-                    out.append(("set", mid, n, v))
-            if not reduced:
+                    if not narrow or (mid, n, v) in nar["set"]:
+                        out.append(("set", mid, n, v))
+            if not narrow:
                 out.append(("setnone", mid, 0))
             for n in NAMES:
-                if not (reduced and n == "b"):
+                if not narrow or (mid, n) in nar["del"]:
                     out.append(("del", mid, n))
         for v in (0, 1, 2):
             if m.assigned[v]:
@@ -883,20 +938,16 @@ class C06(Check):
             for n in m.mgr[mid].keys():
                 out.append(("editgroup", mid, n))
         for mid in live:
-            if reduced and mid not in ("P", "M"):
-                continue
-            out.append(("mcopy", mid))
+            if not narrow or mid in nar["mcopy"]:
+                out.append(("mcopy", mid))
         for dst in OWNERS:
             if m.mgr[dst] is None:
                 continue
             for src in live:
-                if src == dst:
-                    continue
-                if reduced and not (dst == "I" or src == "M"):
-                    continue
-                out.append(("assign", dst, src))
+                if src != dst and (not narrow or (dst, src) in nar["assign"]):
+                    out.append(("assign", dst, src))
         for src in ("P", "I"):
-            if not (reduced and src == "I"):
+            if not narrow or src in nar["ocopy"]:
                 out.append(("ocopy", src))
         if all(int(g["points"].shape[1]) == 2 for g in m.mgr["P"].values()):
             out.append(("xform", "P"))
@@ -972,7 +1023,7 @@ class C06(Check):
                     if exc is not None:
                         fails.append(Failure("lm-get", "raised", repr(exc)))
                     else:
-                        d = obs_diff(m.mgr[mid][name], observe(got), atol=LM_TOL)
+                        d = obs_diff(m.mgr[mid][name], gobs(got), atol=LM_TOL)
                         if d:
                             fails.append(Failure("lm-get", "group-content", d))
             return fails  # query: the global oracle ran after the step that produced this state
@@ -986,7 +1037,7 @@ class C06(Check):
                     if exc is not None:
                         fails.append(Failure("lm-get-none", "sole-group-not-resolved", repr(exc)))
                     else:
-                        d = obs_diff(list(od.values())[0], observe(got), atol=LM_TOL)
+                        d = obs_diff(list(od.values())[0], gobs(got), atol=LM_TOL)
                         if d:
                             fails.append(Failure("lm-get-none", "group-content", d))
             else:
@@ -1015,7 +1066,7 @@ class C06(Check):
                 for n in NAMES:
                     if (n in mg) != (n in od):
                         fails.append(Failure("lm-iter", "contains", n))
-                vals = [observe(g) for g in mg.values()]
+                vals = [gobs(g) for g in mg.values()]
                 d = obs_diff(list(od.values()), vals, atol=LM_TOL)
                 if d:
                     fails.append(Failure("lm-iter", "values", d))
@@ -1142,7 +1193,7 @@ class C06(Check):
             for name, g in od.items():
                 live = mg[name]
                 dims.add(live.n_dims)
-                d = obs_diff(g, observe(live), atol=LM_TOL)
+                d = obs_diff(g, gobs(live), atol=LM_TOL)
                 if d:
                     fails.append(Failure(where, "group-content", "manager %s group %r differs from what was stored: %s" % (mid, name, d)))
             if len(dims) > 1:
@@ -1157,7 +1208,7 @@ class C06(Check):
                 if len(od) == 1:
                     fails.append(Failure(where, "sole-group-not-resolved", "manager %s" % mid))
         for i, v in enumerate(st["pool"]):
-            d = obs_diff(m.pool[i], observe(v))
+            d = obs_diff(m.pool[i], gobs(v))
             if d:
                 fails.append(Failure(where, "assigned-value-changed", "pool value %d: %s" % (i, d)))
         if not np.array_equal(st["own"]["P"].points, st["own0"]["P"]) or not np.array_equal(st["own"]["I"].pixels, st["own0"]["I"]):
@@ -1223,7 +1274,10 @@ class C06(Check):
             "replacing the only group of a manager by a value of another dimensionality, and assigning a manager of another "
             "dimensionality than its new owner, may be refused or accepted (the property fixes neither)",
             "landmark machine: group names {a, b}; at most one derived owner and one detached manager copy are alive (a new one "
-            "replaces the old); thorough levels 4-5 use a narrowed operation alphabet",
+            "replaces the old); quick: every history of <= 3 operations from the empty and from a pre-filled configuration; thorough: "
+            "<= 5 from the empty and <= 4 from the pre-filled one, the 4th and 5th operation drawn from the narrowed alphabet C06.NARROW "
+            "(+ all edits and all queries)",
+            "a pool value can be edited in place only once it has been assigned somewhere",
             "edits are +1.0 on the first coordinate; group comparison tolerance %g" % LM_TOL,
         ]
 
